@@ -85,7 +85,12 @@ def identity(eng, st, fr, args, fn, site):
 
 
 def ts_new(eng, st, fr, args, fn, site):
-    return ('agg', TIMESPEC, 'TimeSpec', (('agg', LIBC_TIMESPEC, 'timespec', (args[0], args[1])),))
+    a, b = args[0], args[1]
+    # TimeSpec::new(x.tv_sec, x.tv_nsec) re-assembles the timespec x
+    if a[0] == 't' and a[1] == 'field' and b[0] == 't' and b[1] == 'field' and a[2][0] == b[2][0] and \
+            str(a[2][1]) == 'tv_sec' and str(b[2][1]) == 'tv_nsec':
+        return ('agg', TIMESPEC, 'TimeSpec', (a[2][0],))
+    return ('agg', TIMESPEC, 'TimeSpec', (('agg', LIBC_TIMESPEC, 'timespec', (a, b)),))
 
 
 def ts_from(eng, st, fr, args, fn, site):
